@@ -91,56 +91,61 @@ def gen_cfg(ctx, name, *, spec="Spec", pushers="{1}", refs="{1, 2}", inits="Init
     return path
 
 
-# --------------------------------------------------------------------------- model checking
-PROPS = ("TypeOK", "StatusExact", "NoDanglingRef", "AtomicOK")
-
-
-def run_models(ctx):
-    """The design with the three repairs satisfies the property (also under races); each deviation
-    the code has or could have violates exactly the clause it should (negative controls)."""
-    P3 = ("StatusExact", "NoDanglingRef", "AtomicOK")
+# --------------------------------------------------------------------------- TLC: model checking, negative controls, emission
+def tlc_phase(ctx, flags):
+    """All TLC work that does not depend on real executions, run concurrently.
+    - the design with the three repairs satisfies the property, also under races (mc_*);
+    - each deviation the code has or could have violates exactly the clause it should (neg_*);
+    - the behaviours of the case spaces under the design parameters of the code under test are
+      emitted for replay (emit_*)."""
+    q = ctx.quick
     jobs = [
-        # name, cfg (static, in specs/), expected violated invariant or None
-        ("mc_seq", "RecvPack_mc_seq.cfg", None),
+        # name, cfg, expected violated invariant (None: must hold), emission?
+        ("mc_seq", "RecvPack_mc_seq_q.cfg" if q else "RecvPack_mc_seq.cfg", None),
         ("mc_local", "RecvPack_mc_local.cfg", None),
-        ("mc_racelocal", "RecvPack_mc_racelocal.cfg", None),
+        ("mc_race", "RecvPack_mc_race_q.cfg" if q else "RecvPack_mc_race.cfg", None),
         ("neg_cas", "RecvPack_neg_cas.cfg", "StatusExact"),
         ("neg_obj", "RecvPack_neg_obj.cfg", "NoDanglingRef"),
         ("neg_atomic", "RecvPack_neg_atomic.cfg", "AtomicOK"),
         ("neg_local_obj", "RecvPack_neg_local_obj.cfg", "NoDanglingRef"),
-        ("neg_local_race", "RecvPack_neg_local_race.cfg", "AtomicOK"),
+        ("neg_local_race", "RecvPack_neg_local_race_q.cfg" if q else "RecvPack_neg_local_race.cfg", "AtomicOK"),
     ]
-    if ctx.quick:
-        jobs.append(("mc_race_q", "RecvPack_mc_race_q.cfg", None))
-    else:
-        jobs += [("mc_race", "RecvPack_mc_race.cfg", None), ("mc_precheck", "RecvPack_mc_precheck.cfg", None),
+    if not q:
+        jobs += [("mc_racelocal", "RecvPack_mc_racelocal.cfg", None), ("mc_precheck", "RecvPack_mc_precheck.cfg", None),
+                 ("mc_race3", "RecvPack_mc_race3.cfg", None),
                  ("neg_precheck_race", "RecvPack_neg_precheck_race.cfg", "AtomicOK"),
-                 ("mc_race3", "RecvPack_mc_race3.cfg", None)]
+                 ("neg_local_precheck_race", "RecvPack_neg_local_precheck_race.cfg", "AtomicOK"),
+                 ("asis", "RecvPack_asis.cfg", "StatusExact")]
+    emits = [
+        ("wire-seq", dict(inits=ctx.pick("Inits01", "Inits012"), pushin=ctx.pick("WireQuick", "WireFull"))),
+        ("local-seq", dict(inits="Inits012", pushin="LocalAll")),
+        ("wire-race", dict(pushers="{1, 2}", inits="RaceInits", pushin=ctx.pick("RaceWireQ", "RaceWire"))),
+        ("local-race", dict(pushers="{1, 2}", inits="RaceInits", pushin="RaceLocal")),
+    ]
+    for name, kw in emits:
+        jobs.append(("emit_" + name, gen_cfg(ctx, "emit_" + name.replace("-", "_"), keep=True, emit=True, flags=flags, **kw), "EMIT"))
 
     def one(job):
         name, cfg, expect = job
-        return job, tlc.run(SPEC, cfg, workers=ctx.pick(2, 4), timeout=ctx.pick(300, 1500), coverage=not ctx.quick and expect is None)
-    with cf.ThreadPoolExecutor(max_workers=ctx.pick(5, 4)) as ex:
+        big = name in ("emit_wire-seq", "mc_seq", "mc_race")
+        return job, tlc.run(SPEC, cfg, workers=(4 if big else 2), timeout=ctx.pick(300, 1800),
+                            coverage=(not q and expect is None))
+    out = {}
+    with cf.ThreadPoolExecutor(max_workers=ctx.pick(7, 5)) as ex:
         results = list(ex.map(one, jobs))
     for (name, cfg, expect), res in results:
+        if expect == "EMIT":
+            ctx.add_tlc(name, res)
+            behs = [json.loads(json.loads(line)) for line in res.output.splitlines() if line.startswith('"{')]
+            if not behs:
+                raise MachineryError(f"no behaviour emitted by {name}\n{res.output[-2000:]}")
+            out[name[5:]] = behs
+            continue
         ctx.add_tlc(name, res, require_ok=expect is None)
         if expect is not None and expect not in res.violated:
             raise MachineryError(f"negative control {name}: TLC did not find {expect} violated (violated={res.violated})\n{res.output[-1500:]}")
-    ctx.log("model checking: " + ", ".join(f"{n}={r.distinct}" for (n, _, _), r in results))
-
-
-# --------------------------------------------------------------------------- behaviour emission
-def emit(ctx, name, **kw):
-    cfg = gen_cfg(ctx, name, keep=True, emit=True, **kw)
-    res = tlc.run(SPEC, cfg, workers=PROCS, timeout=ctx.pick(300, 1800))
-    ctx.add_tlc("emit_" + name, res)
-    behs = []
-    for line in res.output.splitlines():
-        if line.startswith('"{'):
-            behs.append(json.loads(json.loads(line)))
-    if not behs:
-        raise MachineryError(f"no behaviour emitted by {name}\n{res.output[-2000:]}")
-    return behs
+    ctx.log("TLC: " + ", ".join(f"{n}={r.distinct}" for (n, _, _), r in results))
+    return out
 
 
 # --------------------------------------------------------------------------- workers (real executions)
@@ -458,20 +463,13 @@ def run(ctx):
     tpl = _tpl(ctx.scratch)
     flags = probe_flags(ctx, tpl)
     ctx.cov["design_parameters"] = flags
-    run_models(ctx)
+    behs = tlc_phase(ctx, flags)
     judge = Judge(ctx, flags)
-
-    # R1: sequential wire pushes
-    behs = emit(ctx, "wire_seq", inits=ctx.pick("Inits01", "Inits012"), pushin=ctx.pick("WireQuick", "WireFull"), flags=flags)
-    replay_space(ctx, judge, "wire-seq", behs)
-    # R2: sequential local pushes
-    behs = emit(ctx, "local_seq", inits="Inits012", pushin="LocalAll", flags=flags)
-    replay_space(ctx, judge, "local-seq", behs)
-    # R3: two pushers, every interleaving
-    behs = emit(ctx, "wire_race", pushers="{1, 2}", inits="RaceInits", pushin=ctx.pick("RaceWireQ", "RaceWire"), flags=flags)
-    replay_space(ctx, judge, "wire-race", behs, race=True, opts={"maxp": 3})
-    behs = emit(ctx, "local_race", pushers="{1, 2}", inits="RaceInits", pushin="RaceLocal", flags=flags)
-    replay_space(ctx, judge, "local-race", behs, race=True, opts={"maxp": 3})
+    # R: every behaviour TLC enumerated, on the real code
+    replay_space(ctx, judge, "wire-seq", behs["wire-seq"])
+    replay_space(ctx, judge, "local-seq", behs["local-seq"])
+    replay_space(ctx, judge, "wire-race", behs["wire-race"], race=True, opts={"maxp": 3})
+    replay_space(ctx, judge, "local-race", behs["local-race"], race=True, opts={"maxp": 3})
 
     # T: random larger pushes, other layouts, stateless-rpc, up to three pushers under random schedules
     n = ctx.pick(600, 12000)
